@@ -1,42 +1,73 @@
 #!/venv/bin/python
-# tools/seeded_recheck.py [ids...] — re-runs the quick check of the property of every seeded change (seeded/<id>/patch.diff)
-# against /repo with the patch applied, reverts the patch, restores the evidence file, and writes seeded/RECHECK.json.
+# tools/seeded_recheck.py [-j N] [ids...] — re-runs the quick check of the property of every seeded change (seeded/<id>/patch.diff)
+# against a scratch worktree of /repo with the patch applied (RTAMT_REPO points the check at the worktree, VERIF_OUTDIR keeps its
+# evidence and replays out of /verif), N worktrees in parallel, and writes seeded/RECHECK.json.  /repo itself is never touched.
 # Used while building the machinery; not part of any registered check.
-import json, os, subprocess, sys, time
+import json, os, subprocess, sys, time, threading, shutil
 
-def sh(cmd, cwd=None, timeout=3600):
-    p = subprocess.run(cmd, shell=True, cwd=cwd, stdout=subprocess.PIPE, stderr=subprocess.STDOUT, universal_newlines=True, timeout=timeout)
+
+def sh(cmd, cwd=None, env=None, timeout=3600):
+    p = subprocess.run(cmd, shell=True, cwd=cwd, env=env, stdout=subprocess.PIPE, stderr=subprocess.STDOUT, universal_newlines=True, timeout=timeout)
     return p.returncode, p.stdout
 
-def main():
-    ids = sys.argv[1:] or sorted(d for d in os.listdir('/verif/seeded') if os.path.isdir('/verif/seeded/' + d))
-    res = {}
-    if os.path.exists('/verif/seeded/RECHECK.json') and sys.argv[1:]:
-        res = json.load(open('/verif/seeded/RECHECK.json'))
-    for name in ids:
+
+def worker(k, todo, res, lock):
+    wt, out = '/tmp/seedre%d' % k, '/tmp/seedre%d_out' % k
+    sh('git -C /repo worktree remove --force %s' % wt)
+    sh('git -C /repo worktree prune')
+    rc, o = sh('git -C /repo worktree add -q --detach %s HEAD' % wt)
+    assert rc == 0, o
+    os.makedirs(out, exist_ok=True)
+    env = dict(os.environ, RTAMT_REPO=wt, VERIF_OUTDIR=out, PYTHONPATH=wt)
+    while True:
+        with lock:
+            if not todo:
+                break
+            name = todo.pop(0)
         pid = name.split('_')[0]
         patch = '/verif/seeded/%s/patch.diff' % name
-        evf = '/verif/evidence/%s.json' % pid
-        ev = open(evf).read() if os.path.exists(evf) else None
-        rc, o = sh('git -C /repo apply %s' % patch)
+        rc, o = sh('git -C %s apply %s' % (wt, patch))
         if rc != 0:
-            res[name] = {'applies': False, 'msg': o[-200:]}
-            print(name, 'DOES NOT APPLY')
+            with lock:
+                res[name] = {'applies': False, 'msg': o[-200:]}
+            print(name, 'DOES NOT APPLY', flush=True)
             continue
         t0 = time.time()
         try:
-            rc, o = sh('./check %s --tier quick' % pid, cwd='/verif')
+            rc, o = sh('./check %s --tier quick' % pid, cwd='/verif', env=env)
         finally:
-            sh('git -C /repo checkout -- .')
-            if ev is not None:
-                open(evf, 'w').write(ev)
+            sh('git -C %s checkout -- .' % wt)
+            sh('git -C %s clean -fdq' % wt)
         viol = [l for l in o.splitlines() if l.startswith('VIOLATION')]
-        res[name] = {'applies': True, 'exit': rc, 'violations': len(viol), 'caught': rc == 1 and len(viol) > 0, 'seconds': round(time.time() - t0, 1)}
+        with lock:
+            res[name] = {'applies': True, 'exit': rc, 'violations': len(viol), 'caught': rc == 1 and len(viol) > 0, 'seconds': round(time.time() - t0, 1)}
         print(name, res[name], flush=True)
+    sh('git -C /repo worktree remove --force %s' % wt)
+    shutil.rmtree(out, ignore_errors=True)
+
+
+def main():
+    args = sys.argv[1:]
+    j = 4
+    if args[:1] == ['-j']:
+        j = int(args[1])
+        args = args[2:]
+    ids = args or sorted(d for d in os.listdir('/verif/seeded') if os.path.isdir('/verif/seeded/' + d))
+    res = {}
+    if os.path.exists('/verif/seeded/RECHECK.json') and args:
+        res = json.load(open('/verif/seeded/RECHECK.json'))
+    todo, lock = list(ids), threading.Lock()
+    ts = [threading.Thread(target=worker, args=(k, todo, res, lock)) for k in range(j)]
+    for t in ts:
+        t.start()
+    for t in ts:
+        t.join()
+    sh('git -C /repo worktree prune')
     rc, o = sh('git -C /repo status --short')
     res['_repo_clean_after'] = (o.strip() == '')
     json.dump(res, open('/verif/seeded/RECHECK.json', 'w'), indent=1, sort_keys=True)
     missed = [k for k, v in res.items() if isinstance(v, dict) and not v.get('caught')]
     print('missed:', missed)
+
 
 main()
